@@ -248,8 +248,17 @@ def _impl_tabq(case):
     res = {}
     for nm, tab in (("q", models.Tabular1D(points=np.arange(len(vals), dtype=float), lookup_table=vals * tu, bounds_error=False, fill_value=None)),
                     ("t", models.Tabular1D(points=np.arange(len(vals), dtype=float), lookup_table=(vals * tu).to_value(wu), bounds_error=False, fill_value=None))):
-        w = gw.WCS([(det, models.Shift(0.0) | tab), (cf.SpectralFrame(unit=wu, name="world"), None)])
         pix = np.array(case["pix"]) if case["array"] else case["pix"][0]
+        if case.get("two"):
+            # a slit position (plain numbers, metres) beside the wavelength read from the table of quantities: first output plain, second a quantity
+            det2 = cf.CoordinateFrame(2, ("SPATIAL", "SPATIAL"), (0, 1), unit=(u.pix, u.pix), name="detector")
+            out2 = cf.CompositeFrame([cf.CoordinateFrame(1, ("SPATIAL",), (0,), unit=(u.m,), name="slit", axes_names=("s",)),
+                                      cf.SpectralFrame(unit=wu, axes_order=(1,), name="spec")], name="world")
+            w = gw.WCS([(det2, models.Shift(2.5) & (models.Shift(0.0) | tab)), (out2, None)])
+            res[nm] = {"p2wv": _try(lambda: _vals(w.pixel_to_world_values(pix * 0 + 3.0, pix))),
+                       "ai2wv": _try(lambda: _vals(w.array_index_to_world_values(np.asarray(np.floor(np.asarray(pix) + 0.5), dtype=int), np.asarray(np.floor(np.asarray(pix) + 0.5), dtype=int) * 0 + 3)))}
+            continue
+        w = gw.WCS([(det, models.Shift(0.0) | tab), (cf.SpectralFrame(unit=wu, name="world"), None)])
         r = {"p2wv": _try(lambda: _vals(w.pixel_to_world_values(pix))),
              "ai2wv": _try(lambda: _vals(w.array_index_to_world_values(np.asarray(np.floor(np.asarray(pix) + 0.5), dtype=int)))),
              "p2w": _try(lambda: {"kinds": [type(w.pixel_to_world(pix)).__name__], "v": [np.asarray(w.pixel_to_world(pix).to_value(wu)).tolist()]})}
@@ -670,7 +679,8 @@ def gen(rng, tier):
         start = float(rng.randint(400, 900))
         arr = rng.random() < 0.5
         yield {"family": "tabq", "tunit": rng.choice(["nm", "um", "AA"]), "wunit": rng.choice(["nm", "um", "AA", "m"]), "array": arr,
-               "table": [start + 10.0 * i + (i * i) / 4.0 for i in range(n)], "pix": [rng.randint(0, 4 * (n - 1)) / 4.0 for _i in range(3 if arr else 1)]}
+               "table": [start + 10.0 * i + (i * i) / 4.0 for i in range(n)], "pix": [rng.randint(0, 4 * (n - 1)) / 4.0 for _i in range(3 if arr else 1)],
+               "two": _ % 2 == 1}
 
 
 def _gen_main(rng, tier):
